@@ -496,6 +496,12 @@ impl Qcow2Header {
         let end = start + ((rc_blk.1 as usize) << cluster_bits);
         let mut ref_b = RefBlock::new(refcount_order, end - start, Some(rc_blk.0));
 
+        // the single refcount block written here has to count all initial
+        // meta data: header, refcount table, itself and the l1 table
+        if (clusters as u64) + (l1_table.1 as u64) > ref_b.entries() as u64 {
+            return Err("image is too big: initial meta data exceeds one refcount block".into());
+        }
+
         //header
         ref_b.increment(0)?;
         assert!(ref_b.get(0).into_plain() == 1);
